@@ -378,6 +378,53 @@ void check_c04_null(Position& P, const Board& B)
     check_c04(P, B, "undo-null");
 }
 
+// "Positions that differ in any of those four components get different keys": all positions that share B's piece placement
+// but differ in side to move, castling rights (every subset of the rights the placement admits) and en-passant square (every
+// square the placement admits) must have pairwise different keys. Random games almost never visit two such siblings, so
+// components that cancel each other (rights against ep file against side) would go unnoticed without this enumeration.
+void check_c04_siblings(const Board& B)
+{
+    int admits = 0;
+    if (B.sq[4] == orc::WK && B.sq[7] == orc::WR) admits |= orc::CK;
+    if (B.sq[4] == orc::WK && B.sq[0] == orc::WR) admits |= orc::CQ;
+    if (B.sq[60] == orc::BK && B.sq[63] == orc::BR) admits |= orc::Ck;
+    if (B.sq[60] == orc::BK && B.sq[56] == orc::BR) admits |= orc::Cq;
+    struct Sib
+    {
+        uint64_t key;
+        int stm, castle, ep;
+    };
+    std::vector<Sib> sibs;
+    for (int stm = 0; stm < 2; ++stm)
+        for (int c = 0; c < 16; ++c)
+        {
+            if (c & ~admits) continue;
+            for (int e = -1; e < 8; ++e)
+            {
+                Board V = B;
+                V.stm = stm;
+                V.castle = c;
+                V.ep = e < 0 ? -1 : orc::sq_of(e, stm == orc::WHITE ? 5 : 2);
+                if (!V.retro_legal()) continue;
+                Position S(V.fen());
+                sibs.push_back(Sib{S.hash(), stm, c, V.ep});
+            }
+        }
+    rec.count("sibling-sets");
+    rec.count("sibling-positions", (long long)sibs.size());
+    std::sort(sibs.begin(), sibs.end(), [](const Sib& a, const Sib& b) { return a.key < b.key; });
+    for (size_t i = 1; i < sibs.size(); ++i)
+        if (sibs[i].key == sibs[i - 1].key)
+        {
+            const Sib &a = sibs[i - 1], &b = sibs[i];
+            std::string diff = std::string(a.stm != b.stm ? "side+" : "") + (a.castle != b.castle ? "castling+" : "") + (a.ep != b.ep ? "ep+" : "");
+            Board VA = B, VB = B;
+            VA.stm = a.stm, VA.castle = a.castle, VA.ep = a.ep;
+            VB.stm = b.stm, VB.castle = b.castle, VB.ep = b.ep;
+            rec.violation("two-pos-same-key:siblings-differ-in:" + diff, vh::J().str("pos_a", VA.fen()).str("pos_b", VB.fen()).hex("key", a.key).done());
+        }
+}
+
 // ------------------------------------------------------------------ C07
 struct GameHist
 {
@@ -592,7 +639,24 @@ void check_c17(Position& P, const Board& B, const std::vector<orc::Move>& legal)
 }
 
 // ------------------------------------------------------------------ C18
-void check_c18(const Position& P, const Board& B)
+long g_c18_visits = 0;
+std::string c18_component(uint64_t d)
+{
+    std::string comp = "piece-or-mixed";
+    if (d == orc::RANDOM64[780]) comp = "turn";
+    for (int f = 0; f < 8; ++f)
+        if (d == orc::RANDOM64[772 + f]) comp = "ep";
+    for (int mask = 1; mask < 16; ++mask)
+    {
+        uint64_t x = 0;
+        for (int i = 0; i < 4; ++i)
+            if (mask & (1 << i)) x ^= orc::RANDOM64[768 + i];
+        if (d == x) comp = "castle";
+    }
+    return comp;
+}
+
+void check_c18(Position& P, const Board& B, const std::vector<orc::Move>& legal)
 {
     rec.evaluations++;
     uint64_t e = PolyglotBook::hash(P), o = orc::polyglot_key(B);
@@ -626,6 +690,25 @@ void check_c18(const Position& P, const Board& B)
             if (d == x) comp = "castle";
         }
         rec.violation(comp + ":" + geo, vh::J().str("fen", B.fen()).hex("engine", e).hex("spec", o).hex("xor", d).done());
+    }
+    // the key of the SAME position object after a move was made and taken back (what perft and the search leave behind):
+    // where an en-passant square exists, every move is tried
+    if (e == o && (B.ep >= 0 || (g_c18_visits++ & 7) == 0))
+    {
+        for (const orc::Move& m : legal)
+        {
+            Move em = glue::to_engine(m, B);
+            MoveInfo mi = P.do_move(em);
+            P.undo_move(em, mi);
+            uint64_t e2 = PolyglotBook::hash(P);
+            rec.count("keys-after-make-unmake");
+            if (e2 != o)
+            {
+                rec.violation("after-make-unmake:" + c18_component(e2 ^ o) + ":" + geo + ":" + B.move_class(m),
+                              vh::J().str("fen", B.fen()).str("move_made_and_taken_back", m.uci()).hex("engine", e2).hex("spec", o).hex("xor", e2 ^ o).done());
+                break;
+            }
+        }
     }
     if (B.ep >= 0 || B.castle) rec.nontrivial(vh::fnv(B.key4()));
 }
@@ -674,12 +757,13 @@ void visit(Position& P, const Board& B, GameHist& gh, const std::string& last_op
     {
         check_c04(P, B, last_op);
         if ((g_positions & 3) == 0) check_c04_null(P, B);
+        if ((g_positions & 15) == 5) check_c04_siblings(B);
     }
     else if (PROP == "C07") check_c07(P, B, legal, gh);
     else if (PROP == "C15") check_c15(P, B, legal);
     else if (PROP == "C16") check_c16(P, B, legal);
     else if (PROP == "C17") check_c17(P, B, legal);
-    else if (PROP == "C18") check_c18(P, B);
+    else if (PROP == "C18") check_c18(P, B, legal);
     if (rec.samples.size() < rec.max_samples && (g_positions % 997) == 1) rec.sample(vh::J().str("fen", B.fen()).str("source", tag).num("legal_moves", (long long)legal.size()).done());
 }
 
@@ -716,6 +800,17 @@ void play(const gen::Game& g)
             {
                 GameHist tmp;
                 visit(P, N, tmp, cls, g.tag + ":after-divergent-do_move");
+            }
+            // C07 is about what the engine answers for THIS game history. As long as pieces and side to move agree (only
+            // rights / ep square / clocks are off) the game's moves remain executable, and the history predicates are judged
+            // to the end of the game: a right that was not revoked shows as a repetition that is not recognised.
+            auto two_fields = [](const std::string& f) { size_t a = f.find(' '); size_t b2 = a == std::string::npos ? a : f.find(' ', a + 1); return f.substr(0, b2); };
+            if (PROP == "C07" && two_fields(P.fen()) == two_fields(N.fen()))
+            {
+                rec.count("game-continued-with-divergent-rights/ep/clock");
+                B = N;
+                visit(P, B, gh, cls, g.tag + ":after-divergent-do_move");
+                continue;
             }
             return;
         }
@@ -824,6 +919,26 @@ int main(int argc, char** argv)
             rec.count("synth:only-ep-evasion");
             gen::Policy p = pol;
             play(gen::random_game(rng, b, 2, p, "synth:only-ep-evasion"));
+        }
+    // directed: a rook taken on its home corner with the right intact (promoting pawn, slider, knight), then a shuffling game:
+    // the right is gone (C02), the key follows (C04), and the positions after it are repeated by returning moves (C07)
+    if (PROP == "C02" || PROP == "C04" || PROP == "C07" || PROP == "C03")
+        for (long i = 0; i < std::max(8L, synth / 100); ++i)
+        {
+            Board b;
+            orc::Move first;
+            if (!gen::corner_rook_capture(rng, b, first)) continue;
+            rec.count(first.promo ? "synth:corner-rook-captured-by-promoting-pawn" : "synth:corner-rook-captured-by-piece");
+            gen::Policy p = pol;
+            p.rep_bias = 0.75;
+            p.mate_bias = 0.0;
+            gen::Game rest = gen::random_game(rng, b.after(first), 10 + int(rng.below(14)), p, "synth:corner-rook-capture");
+            gen::Game g;
+            g.start_fen = b.fen();
+            g.tag = "synth:corner-rook-capture";
+            g.moves.push_back(first);
+            g.moves.insert(g.moves.end(), rest.moves.begin(), rest.moves.end());
+            play(g);
         }
     // --- nested walks (C03), transposition walks are covered by shuffle games (C04)
     if (PROP == "C03")
